@@ -224,10 +224,10 @@ def lazy_columns(ctx) -> None:
         org = [a for a in core.walk_local(loops[0]) if isinstance(a, ast.Assign) and core.src(a.targets[0]) == 'origin']
         ctx.check(all(core.src(a.value) == f'self._origins[{t}]' for a in org), 'R-SIBLING', rd, 'the origin is looked up by the table of the same iteration', loops[0], key='reader:origin')
         miss = [r for r in core.walk_local(loops[0]) if isinstance(r, ast.Raise)]
-        ctx.check(len(miss) == 1 and cfg.cguards(miss[0], loops[0]) == [(f'{t} not in self._origins', True)] and 'MissingError' in core.src(miss[0]), 'R-SIBLING', rd, 'a table without an origin is refused (missing), never silently skipped', loops[0], key='reader:missing')
+        ctx.check(len(miss) == 1 and cfg.cguards(miss[0], loops[0]) == cfg.cg((f'{t} not in self._origins', True)) and 'MissingError' in core.src(miss[0]), 'R-SIBLING', rd, 'a table without an origin is refused (missing), never silently skipped', loops[0], key='reader:missing')
         reg = [x for x in core.calls_in(loops[0]) if isinstance(x.func, ast.Attribute) and x.func.attr == 'execute']
         g = cfg.cguards(reg[0], loops[0]) if reg else None
-        ctx.check(len(reg) == 1 and g == [('origin not in self.PARTITIONS or self.PARTITIONS[origin].symmetric_difference(partitions)', True)], 'R-SIBLING', rd, f'the origin is (re)registered whenever it is new or its partition set changed (guards {g})', reg[0] if reg else loops[0], key='reader:reregister')
+        ctx.check(len(reg) == 1 and g == cfg.cg(('origin not in self.PARTITIONS or self.PARTITIONS[origin].symmetric_difference(partitions)', True)), 'R-SIBLING', rd, f'the origin is (re)registered whenever it is new or its partition set changed (guards {g})', reg[0] if reg else loops[0], key='reader:reregister')
     ext = prog.func(f'{cols.ref}.extract')
     ctx.check('key=lambda c: c.origin' in core.src(ext.node) and 'sorted(cls()(statement)' in core.src(ext.node), 'R-SIBLING', ext, 'columns are grouped by their own table', ext.node, key='extract:groupby')
 
